@@ -86,8 +86,8 @@ def tx_impl(h, name, fields, body, kw):
             return hx(h._ezsp_frame(name, *args))
         if kw == 0:
             return hx(h._ezsp_frame(name, *vals))
-        if kw == 4:
-            a4, _ = tx_args(name, fields, body, 4)
+        if kw in (4, 5):
+            a4, _ = tx_args(name, fields, body, kw)
             return hx(h._ezsp_frame(name, *a4))
         keys = [k for k, _, _ in fields]
         if kw == 1:
@@ -208,6 +208,16 @@ def tx_args(name, fields, body, kw):
             else:
                 out.append(v)
         return out, {}
+    if kw == 5:
+        # plain Python numbers for the integer fields (what most callers write): the declared type makes of them what it makes of
+        # its own instances - for a signed field that includes the negative numbers
+        out = []
+        for (_, tp, d), v in zip(fields, vals):
+            if d[0] in ("u", "s") and isinstance(v, int) and not hasattr(tp, "__members__"):
+                out.append(int(v))
+            else:
+                out.append(v)
+        return out, {}
     if kw == 0:
         return vals, {}
     if kw == 1:
@@ -265,7 +275,7 @@ def run(ctx):
                     h._seq = seq
                     want = hx(ezsplib.spec_header(v, seq, cid) + body)
                     vals = "[" + ",".join(p[0] for p in parts) + "]"
-                    for kw in ((0, 1, 2, 3, 4) if len(txf) >= 2 else (0, 1, 4) if txf and txf[0][0] != "<single>" else (0,)):
+                    for kw in ((0, 1, 2, 3, 4, 5) if len(txf) >= 2 else (0, 1, 4, 5) if txf and txf[0][0] != "<single>" else (0,)):
                         got = tx_impl(h, name, txf, body, kw)
                         if txf and txf[0][0] == "<single>":
                             line = None
